@@ -41,6 +41,7 @@ pub fn par_map<I: Sync, O: Send, F: Fn(usize, &I) -> O + Sync>(items: &[I], f: F
                             }
                         }
                     }
+                    crate::ev::progress_clear();
                     let mut o = out.lock().unwrap();
                     for (i, r) in local.drain(..) {
                         o[i] = Some(r);
